@@ -1384,6 +1384,9 @@ def vec_of(v):
     v = deref_all(v)
     if isinstance(v, VecVal):
         return v
+    if isinstance(v, RStr):
+        # `str::as_bytes()` is the same value as the str in this encoding: a read-only byte slice
+        return VecVal(list(v.b))
     raise Unsupported('not a Vec: %r' % (v,))
 
 
@@ -1759,8 +1762,22 @@ def m_map_keys(I, c, r):
 
 
 class Formatter(Opaque):
-    def __init__(self, sink=None):
+    """a fmt::Formatter: the output sink and the flags a caller can set in a format string (`{:#}`, `{:5}`, `{:+}`, ...)"""
+    def __init__(self, sink=None, alternate=False, width=None, precision=None, sign_plus=False, zero_pad=False):
         self.out = sink if sink is not None else []
+        self.alt, self.width, self.precision, self.sign_plus, self.zero_pad = alternate, width, precision, sign_plus, zero_pad
+
+
+@model('Formatter::alternate', 'Formatter::sign_plus', 'Formatter::sign_minus', 'Formatter::sign_aware_zero_pad')
+def m_fmt_flag(I, c, f):
+    f = deref_all(f)
+    return {'alternate': f.alt, 'sign_plus': f.sign_plus, 'sign_minus': False, 'sign_aware_zero_pad': f.zero_pad}[c.method]
+
+
+@model('Formatter::width', 'Formatter::precision')
+def m_fmt_width(I, c, f):
+    v = getattr(deref_all(f), c.method)
+    return NONE_() if v is None else Some(v)
 
 
 class FmtArgs(Opaque):
@@ -2202,6 +2219,42 @@ def unicase_fold_seq(I, ch):
             return list(v)
     # other characters fold to non-ASCII sequences, which can never equal an ASCII key; keep them distinct
     return [ch]
+
+
+def _unicase_folded(I, u):
+    out = []
+    for ch in chars_of(I, list(sbytes(deref_all(u).fields[0]))):
+        out.extend(unicase_fold_seq(I, ch))
+    return [zx(x) if not isinstance(x, int) else x for x in out]
+
+
+@model('Ord::cmp@UniCase', 'PartialOrd::partial_cmp@UniCase', 'PartialEq::eq@UniCase')
+def m_unicase_cmp(I, c, a, b):
+    """comparison of the case-folded texts.  Characters that fold into ASCII are folded exactly (table from the real crate); a decision
+    that hinges on a non-ASCII character whose folding is not in the table is reported as unsupported rather than guessed"""
+    x, y = _unicase_folded(I, a), _unicase_folded(I, b)
+
+    def ascii_(v):
+        return v < 0x80 if isinstance(v, int) else I.ctx.decide(z3.ULT(v, 0x80))
+    res = None
+    for p, q in zip(x, y):
+        same = (p == q) if isinstance(p, int) and isinstance(q, int) else I.ctx.decide((z3.BitVecVal(p, 32) if isinstance(p, int) else p) == (z3.BitVecVal(q, 32) if isinstance(q, int) else q))
+        if same:
+            continue
+        pa, qa = ascii_(p), ascii_(q)
+        if pa and qa:
+            lt = (p < q) if isinstance(p, int) and isinstance(q, int) else I.ctx.decide(z3.ULT(z3.BitVecVal(p, 32) if isinstance(p, int) else p, z3.BitVecVal(q, 32) if isinstance(q, int) else q))
+            res = -1 if lt else 1
+        elif c.method == 'eq' and (pa or qa):
+            res = 1          # a character that does not fold into ASCII never equals an ASCII character
+        else:
+            raise Unsupported('UniCase comparison decided by a non-ASCII character whose case folding is not tabulated')
+        break
+    if res is None:
+        res = (len(x) > len(y)) - (len(x) < len(y))
+    if c.method == 'eq':
+        return res == 0
+    return Some(Ordering(res)) if c.method == 'partial_cmp' else Ordering(res)
 
 
 @model('Map::get')
@@ -3387,8 +3440,54 @@ def m_ord_minmax(I, c, a, b):
 
 
 class ModelSerializer(Opaque):
-    def __init__(self):
+    """records what it is given; with fail=True every call returns an error (a sink that refuses the value)"""
+    def __init__(self, fail=False):
         self.calls = []
+        self.fail = fail
+
+
+# ---- thread-local state (`thread_local!`): one cell per key and per interpreter (= per thread), created by the key's own initialiser;
+#      RefCell is the value it wraps (dynamic borrow flags are not tracked: a double borrow would be a panic this model does not see)
+class LocalKeyVal(Opaque):
+    def __init__(self, accessor):
+        self.accessor = accessor
+
+
+@model('LocalKey::new')
+def m_localkey_new(I, c, accessor):
+    return LocalKeyVal(accessor)
+
+
+@model('LocalKey::with', 'LocalKey::try_with')
+def m_localkey_with(I, c, key, f):
+    k = deref_all(key)
+    if isinstance(k, FnItem):        # the key constant itself, unevaluated: its path identifies the thread-local
+        name = k.text
+    else:
+        name = k.accessor.text if isinstance(k.accessor, FnItem) else repr(k.accessor)
+    tls = I.__dict__.setdefault('tls', {})
+    if name not in tls:
+        inits = [fn for fn in I.prog.fns if fn.name.split('::')[-1] == '__rust_std_internal_init_fn']
+        if len(inits) != 1:
+            raise Unsupported('%d thread-local initialisers in the crate (cannot tell which belongs to %s)' % (len(inits), name))
+        tls[name] = [I.call_fn(inits[0], [], EMPTY_ENV)]
+    r = I.call_value(f, [Ref(tls[name], 0)])
+    return Ok(r) if c.method == 'try_with' else r
+
+
+@model('RefCell::new')
+def m_refcell_new(I, c, v):
+    return Adt('RefCell', None, [v])
+
+
+@model('RefCell::borrow_mut', 'RefCell::borrow', 'RefCell::get_mut')
+def m_refcell_borrow(I, c, r):
+    return Ref(deref_all(r).fields, 0)
+
+
+@model('Deref::deref@RefMut', 'DerefMut::deref_mut@RefMut', 'Deref::deref@Ref')
+def m_refmut_deref(I, c, r):
+    return r
 
 
 @model('Serializer::serialize_unit_variant')
@@ -3406,12 +3505,16 @@ def m_ser_collect_str(I, c, ser, val):
     r = I.trait_call('Display', 'fmt', t, [val, Ref([f], 0)])
     if r.variant != 'Ok':
         raise Panic('a Display implementation returned an error unexpectedly')
+    if deref_all(ser).fail:
+        return Err(DeError('the serializer refuses the value'))
     deref_all(ser).calls.append(('str', list(f.out)))
     return Ok(UNIT())
 
 
 @model('Serializer::serialize_str')
 def m_ser_str(I, c, ser, s):
+    if deref_all(ser).fail:
+        return Err(DeError('the serializer refuses the value'))
     deref_all(ser).calls.append(('str', list(sbytes(s))))
     return Ok(UNIT())
 
